@@ -160,10 +160,12 @@ pub fn run(m128: bool, seed: u64, steps: usize, judge: Judge, prefix: &str, ctx:
     e.verif_refresh_screen();
     // host-side devices that must not change time keeping: an I/O extender claiming a few ports, a tape
     // playing in the background
+    let mut ext_claimed: Vec<u16> = vec![];
     if (seed >> 48) & 1 == 1 {
         ctx.probe("lockstep_extender");
         let mut r2 = Rng::new(seed ^ 0xE77);
         let claimed: Vec<u16> = (0..8).map(|_| r2.u16() | 0x0002).collect();
+        ext_claimed = claimed.clone();
         e.set_io_extender(crate::host::SimExtender { claimed, log: vec![], read_xor: r2.u8() });
     }
     if (seed >> 49) & 1 == 1 {
@@ -444,7 +446,12 @@ pub fn run(m128: bool, seed: u64, steps: usize, judge: Judge, prefix: &str, ctx:
                 // a host action right behind it
                 ctx.probe("lockstep_crafted_boundary");
                 st.pc = 0x8000 + (rng.u16() % 0x3F00);
-                let variant = rng.below(6);
+                let variant = if !ext_claimed.is_empty() && rng.chance(1, 4) { 6 } else { rng.below(6) };
+                if variant == 6 {
+                    // a port cycle on an address the host extender claims, crossing the frame end
+                    ctx.probe("lockstep_crafted_extender_port");
+                    st.bc = *rng.pick(&ext_claimed);
+                }
                 if variant == 5 {
                     // IM 2 with a handler that re-enables interrupts at once: the 32-T pulse is long enough for a
                     // second acceptance (EI; NOP -> INT -> handler EI; NOP -> INT again)
@@ -460,6 +467,7 @@ pub fn run(m128: bool, seed: u64, steps: usize, judge: Judge, prefix: &str, ctx:
                 }
                 let code: Vec<u8> = match variant.min(4) {
                     _ if variant == 5 => vec![0xFB, 0x00, 0x00, 0x00],
+                    _ if variant == 6 => vec![0xED, *rng.pick(&[0x78u8, 0x79, 0x40, 0x41, 0xA2, 0xA3]), 0x00, 0x00],
                     0 | 1 => vec![0xFB, rng.u8(), rng.u8(), rng.u8()],
                     2 => vec![*rng.pick(&[0xDDu8, 0xFD]), *rng.pick(&[0xDDu8, 0xFD]), rng.u8(), rng.u8(), rng.u8()],
                     3 => vec![0x76],
